@@ -161,3 +161,15 @@ Lemma ex_four_symm_perm :
   = sel4 (iperm w4 p3) (four_symm 0%Z Z.add Z.mul 2 ss4 raw4)
   /\ iperm w4 p3 = [3; 4; 0; 1; 2].
 Proof. split; vm_compute; reflexivity. Qed.
+
+(* the hypotheses of the orientation theorems (a field; alpha + beta <> 0; 2 <> 0) hold at the
+   executable rational instance *)
+From Coq Require Import QArith Qcanon.
+From GB Require Import Model.MomentInt.
+Definition QK : Fops Qc := QcK true (Q2Qc 3) (fun x => x) (fun x => x) (fun x => x) (fun _ x => x).
+Lemma ex_orient_hyps :
+  is_field QK /\ psum QK (f1 QK) (fadd QK (f1 QK) (f1 QK)) <> f0 QK /\ fadd QK (f1 QK) (f1 QK) <> f0 QK.
+Proof.
+  split; [apply QcK_field|]. split; intro H; apply (f_equal (fun q : Qc => Qnum (this q))) in H;
+    vm_compute in H; discriminate.
+Qed.
